@@ -37,24 +37,29 @@ def _check(prop, tier, seed, replay, work, t0):
         trans += r["generated"]
         druns.append({"spec": "ClusterReplay", "N": n_, "Window": window, "MaxMig": 2, "invariants": invs.split(), "distinct": r["distinct"]})
     shards = vlib.NCPU
-    n, cmds_ = (640, 8) if tier == "quick" else (6400, 12)
-    cmds = [[drv, "-seed", str(seed), "-n", str(n), "-max-cmds", str(cmds_), "-hot", "4", "-shard", str(i), "-shards", str(shards),
-             "-out", os.path.join(work, "t%d.ndjson" % i), "-stats", os.path.join(work, "s%d.json" % i)] for i in range(shards)]
-    for rc, out in vlib.run_parallel(cmds, timeout=6000):
-        if rc != 0:
-            raise vlib.HarnessError("clusterdrv failed (%d):\n%s" % (rc, out[-3000:]))
+    n, cmds_, nhot = (640, 8, 1600) if tier == "quick" else (6400, 12, 16000)
     trace = os.path.join(work, "trace.ndjson")
     nscen = nexec = nmig = 0
     modes = {}
-    with open(trace, "w") as w:
-        for i in range(shards):
-            s = json.load(open(os.path.join(work, "s%d.json" % i)))
-            nscen += s["scenarios"]
-            nexec += s["executed"]
-            nmig += s["with_migration"]
-            for k, v in s["modes"].items():
-                modes[k] = modes.get(k, 0) + v
-            shutil.copyfileobj(open(os.path.join(work, "t%d.ndjson" % i)), w)
+    open(trace, "w").close()
+    # second run: hot-key streams in blocking mode only (the in-batch routing race needs many tries)
+    for tag, flags in (("mix", ["-n", str(n), "-max-cmds", str(cmds_), "-hot", "4"]),
+                       ("hotbatch", ["-n", str(nhot), "-hot", "1", "-mode", "batch", "-id-base", "1000000"])):
+        cmds = [[drv, "-seed", str(seed)] + flags + ["-shard", str(i), "-shards", str(shards),
+                 "-out", os.path.join(work, "%s%d.ndjson" % (tag, i)), "-stats", os.path.join(work, "%s%d.json" % (tag, i))] for i in range(shards)]
+        for rc, out in vlib.run_parallel(cmds, timeout=6000):
+            if rc != 0:
+                raise vlib.HarnessError("clusterdrv failed (%d):\n%s" % (rc, out[-3000:]))
+        with open(trace, "a") as w:
+            for i in range(shards):
+                s = json.load(open(os.path.join(work, "%s%d.json" % (tag, i))))
+                nscen += s["scenarios"]
+                nexec += s["executed"]
+                nmig += s["with_migration"]
+                for k, v in s["modes"].items():
+                    modes[k] = modes.get(k, 0) + v
+                shutil.copyfileobj(open(os.path.join(work, "%s%d.ndjson" % (tag, i))), w)
+                os.remove(os.path.join(work, "%s%d.ndjson" % (tag, i)))
     viol, tr = vlib.tlc_trace([os.path.join(SPEC, "trace", "TraceCluster.tla")], "TraceCluster", trace, work, timeout=6000)
     violations, known = [], []
     if viol:
